@@ -75,7 +75,8 @@ def stepCore (P : Params) (X : XXH.Primes) (fx : Fix) (s : DState) (w : List Str
       else pure (withView s (opNew P s.w v (suggestNumFilterBits n p) (suggestNumHashesP p) seed) v)
   | ["blk", m, h] => do
       let m ← m.toNat?; let b ← blockOfHex h
-      pure ({ s with w := s.w.setBlock m b, blks := insertId m s.blks }, Out.ok)
+      let r := opBlk s.w m b.len b.val
+      pure ({ s with w := r.1, blks := if r.2 == Out.ok then insertId m s.blks else s.blks }, r.2)
   | ["init", v, m, nb, nh, seed] => do
       let v ← v.toNat?; let m ← m.toNat?; let nb ← nb.toNat?; let nh ← nh.toNat?; let seed ← seed.toNat?
       pure (withView s (opInit P s.w v m nb (nh % 65536) seed) v)
